@@ -74,6 +74,8 @@ def parse(grid_str, mode=MODE_ZINC, charset='utf-8', single=True):
             grid_data = [grid_data]
     else:
         grid_data = GRID_SEP.split(TRAILING_NL_RE.sub('\n', grid_str))
+        # An empty (or blank) document holds no grid at all
+        grid_data = [g for g in grid_data if g.strip()]
 
     grids = list(map(_parse, grid_data))
     if single:
